@@ -54,6 +54,9 @@ EXITS = {
     'continue': "if (it == 0) {{ continue; }}",
     'defeat': "!truth_is_defeat(it == 1);",
     'deepdefeat': "!d1(it - 1);",
+    # the loop is left (or continued) from inside a preempt block, which runs only when defeat is otherwise unavoidable
+    'preemptbreak': "preempt {{ write('p'); break; }} !truth_is_defeat(it == 1);",
+    'preemptcontinue': "preempt {{ continue; }} !truth_is_defeat(it != 1);",
 }
 # function scopes are separate: the allocation lives in a callee, exits are fall / return / return from a nested loop
 FUNCS = {
@@ -76,7 +79,7 @@ def programs():
     for sk, stpl in SCOPES.items():
         for ak, a in ALLOCS.items():
             for ek, e in EXITS.items():
-                if ek in ('defeat', 'deepdefeat') and sk not in ('tryundo', 'trystop', 'preempt', 'pretrystop', 'pretryundo', 'pretrynested'):
+                if ek in ('defeat', 'deepdefeat', 'preemptbreak', 'preemptcontinue') and sk not in ('tryundo', 'trystop', 'preempt', 'pretrystop', 'pretryundo', 'pretrynested'):
                     continue
                 if sk == 'preempt' and ek == 'deepdefeat':
                     continue
